@@ -25,7 +25,7 @@ func init() {
 			"(sticky, balance test) isBalanced examines every member: the loops that look for a partition a lighter member could take from a heavier one are left only when they are exhausted or with the verdict `false` — an early `break` declares the assignment balanced without having looked at the remaining members (C13.balance-test). " +
 			"Shared with C08: the eligibility guards of the three strategies (C08.eligible) — a remembered partition that no longer exists, kept in a member's working list, counts towards its size and can never be moved, so the plan stays unbalanced. " +
 			"NOT decided: that range sizes / round-robin totals differ by at most one (floating-point and modular arithmetic), balance in Kafka's sense, the fixed point of re-planning, keep-on-leave and no-shuffle-on-join — these are relations over the algorithm's outputs for all inputs and need execution or a solver.",
-		Rules: []func(*Ctx){c13Range, c13RoundRobin, c13SwapGuard, c13Generation, c13BalanceTest, c08Rules, c08ErrLost, c13AllClaims, c13FreshFlag, c13MovementsPerPlan, c13BalanceAlways, c13SortRound, c13MovementBookkeeping, c13IsBalancedSortsItself, c08FixedRestoredLast, c15Pair, c15SortedWritable, c13SortedSearch, c13ScoreExact, c13HeapInitialised},
+		Rules: []func(*Ctx){c13Range, c13RoundRobin, c13SwapGuard, c13Generation, c13BalanceTest, c08Rules, c08ErrLost, c13AllClaims, c13FreshFlag, c13MovementsPerPlan, c13BalanceAlways, c13SortRound, c13MovementBookkeeping, c13IsBalancedSortsItself, c08FixedRestoredLast, c15Pair, c15SortedWritable, c13SortedSearch, c13ScoreExact, c13HeapInitialised, c15ReadSets, c13UserDataFallback},
 	})
 }
 
